@@ -52,6 +52,13 @@ reg("C12", ["E1"], E1T,
     "Bounded model checking: the challenge transcripts computed by the real ChallengeInput impls and inside initialize / allow_payment are recorded by the ideal-hash stand-in; "
     "for every wire atom of every proof type, key, parameter set and statement component the query 'equal digest and different atom' must be unsat (response scalars: documented sat twin); builder and proof transcripts must be identical.",
     TB, "DESIGN.md section 4, C12")
+reg("C17", ["E2"], E2T,
+    "Bounded model checking (Kani/CBMC) of the balance and amount arithmetic over all 64-bit inputs, including every amount decodable from the wire (i64::MIN): "
+    "no panic/overflow, success exactly when the i128 reference result is in range, documented error variants, and scalar encoding = field embedding / additive homomorphism (canonical-integer Scalar stand-in).",
+    "trusted base: Kani's translation of MIR, CBMC+cadical; contract assumed of bls12_381::Scalar: from(u64) is the ring embedding and +,-,neg are the field operations", "DESIGN.md section 4, C17")
+reg("C15", ["E2"], E2T,
+    "Kani part: balances decoded from the wire are <= 2^63-1; amounts and balances round-trip exactly (E1 part to follow).",
+    "trusted base: Kani's translation of MIR, CBMC+cadical", "DESIGN.md section 4, C15")
 
 
 def evidence(pid, tier, seed, spec, parts, findings, violations, known_hits, inconclusive, wall):
